@@ -17,7 +17,7 @@ theorem allFixed_iff_unfixed (ss : List Stmt) : allFixed ss = true ↔ unfixed s
 
 /-! ### settle / determine -/
 
-theorem settle_fixed {s s' : Stmt} {e h c} (hs : settle s e h c = some s') : s'.fixedSize = true := by
+theorem settle_fixedSize {s s' : Stmt} {e h c} (hs : settle s e h c = some s') : s'.fixedSize = true := by
   unfold settle at hs
   cases hp : orPost s c with
   | none => simp [hp] at hs
@@ -29,14 +29,22 @@ theorem determine_cases (ss : List Stmt) (i : Nat) (s : Stmt) :
     ∃ e h c s', settle s e h c = some s' ∧ determine ss i s = .ok s' := by
   unfold determine
   split
-  · split
+  · rename_i c0 c1 _
+    -- fix 8dc2b21/316e504: `label * k` / `label / k` is settled on the 16-bit form at once
+    by_cases hfo : exprForces s.pkg.additional = true
+    · rw [if_pos hfo]
+      cases hs : settle s 2 4 c1 with
+      | none => simp
+      | some s' => right; right; right; exact ⟨_, _, _, _, hs, rfl⟩
+    rw [if_neg hfo]
+    split
     · simp
     · split
       · simp
-      · rename_i c0 c1 _ _ rel _ _
+      · rename_i rel _ _
         dsimp only
         generalize (if rel < i then sumSizes ss rel i else sumSizes ss i rel) = pr
-        generalize (if rel < i then s.pkg.size - 1 else 0) = adj
+        generalize (if rel < i then s.pkg.size - 1 else 0) + exprExtra s.pkg.additional = adj
         generalize (if rel < i then 128 else 127) = lim
         obtain ⟨mn, mx⟩ := pr
         dsimp only
@@ -55,11 +63,11 @@ theorem determine_cases (ss : List Stmt) (i : Nat) (s : Stmt) :
   · simp
   · simp
 
-theorem determine_ok {ss : List Stmt} {i : Nat} {s s' : Stmt} (h : determine ss i s = .ok s') :
+theorem determine_ok_fixedOrSame {ss : List Stmt} {i : Nat} {s s' : Stmt} (h : determine ss i s = .ok s') :
     s'.fixedSize = true ∨ s' = s := by
   rcases determine_cases ss i s with h1 | h1 | h1 | ⟨e, hh, c, s'', hs, h1⟩ <;> rw [h1] at h <;> cases h
   · exact Or.inr rfl
-  · exact Or.inl (settle_fixed hs)
+  · exact Or.inl (settle_fixedSize hs)
 
 theorem determine_not_diverged (ss : List Stmt) (i : Nat) (s : Stmt) : determine ss i s ≠ .diverged := by
   intro h
@@ -158,7 +166,7 @@ theorem forceFirst_spec {ss ss' : List Stmt} (h : forceFirst ss = some ss') :
         | none => simp [hs] at h
         | some s' =>
           simp [hs] at h; subst h
-          have := settle_fixed hs
+          have := settle_fixedSize hs
           left; simp [unfixed, List.countP_cons, hf, this]
       · cases h
 
